@@ -18,6 +18,9 @@ type SendScript struct {
 	RaceStats bool   `json:"racestats"` // DATA may be sent before later STATs
 	Tail      string `json:"tail"`      // "echo" (FIN echo then close) | "eof" (close before the receiver's FIN)
 	EOFAfter  int    `json:"eofafter"`  // for "eof": close after this many packets were sent
+	// Trailing: packets (empty DATA frames for id 0) still sent after the FIN echo
+	// and before the stream is closed: the receiver has to read to the end
+	Trailing int `json:"trailing,omitempty"`
 	// Inject lists extra packets a hostile sender slips in (never used for
 	// conforming senders): each is sent once PacketsSent reaches After.
 	Inject []Inject `json:"inject,omitempty"`
@@ -43,6 +46,7 @@ type RefSendResult struct {
 	EndErr        error
 	AtFin         func() // hook run when FIN is seen, before the echo
 	Interleaved   bool   // DATA of >= 2 ids interleaved
+	TrailingSent  int    // packets handed to the stream after the FIN echo
 	ClosedEarly   bool
 	PacketsSent   int
 	Injected      int
@@ -263,6 +267,12 @@ loop:
 			atFin()
 		}
 		end.SendMsg(&types.Packet{Type: types.PACKET_FIN})
+		for i := 0; i < sc.Trailing; i++ {
+			if end.SendMsg(&types.Packet{Type: types.PACKET_DATA, ID: 0, Data: []byte("trailing")}) != nil {
+				break
+			}
+			res.TrailingSent++
+		}
 	}
 	end.Returned(nil)
 	// the reader ends when the receiver's call returns
